@@ -71,6 +71,8 @@ type Info struct {
 	Time     int
 	HashFull int
 	PV       []string
+	Text     bool     // an `info string ...` line
+	kept     []string // the tokens that are not functions of the wall clock
 }
 
 // Result is the observable outcome of one search.
@@ -112,7 +114,8 @@ func SplitLines(s string) []string {
 	return l
 }
 
-// ParseInfos parses lines under the info grammar.
+// ParseInfos parses lines under the UCI info grammar. `info string ...` lines carry free text and
+// are neither search reports nor malformed: they are skipped.
 func ParseInfos(lines []string) (infos []Info, bad []string) {
 	for _, l := range lines {
 		if !strings.HasPrefix(l, "info ") {
@@ -124,57 +127,111 @@ func ParseInfos(lines []string) (infos []Info, bad []string) {
 			bad = append(bad, l)
 			continue
 		}
+		if in.Text {
+			continue
+		}
 		infos = append(infos, in)
 	}
 	return
 }
 
-// ParseInfo parses "info depth D score (cp N|mate N) nodes N time N hashfull N pv m1 m2 ..." and
-// the abort form "info depth D nodes N".
+// intKeys are the UCI info keys that take one integer.
+var intKeys = map[string]bool{"depth": true, "seldepth": true, "time": true, "nodes": true, "multipv": true,
+	"currmovenumber": true, "hashfull": true, "nps": true, "tbhits": true, "sbhits": true, "cpuload": true}
+
+// ParseInfo parses one line of the UCI info grammar: `info` followed by key/value groups in any
+// order - integer keys, `score (cp|mate) N [lowerbound|upperbound]`, `currmove m`, `pv m1 m2 ...`
+// (also refutation/currline; the move list runs to the end of the line), `string <free text>`.
+// Which keys a report carries is the engine's choice; a report without score and pv is the short
+// form written when the search is aborted.
 func ParseInfo(l string) (Info, bool) {
 	f := strings.Fields(l)
 	in := Info{Raw: l}
-	num := func(s string) (int, bool) { v, err := strconv.Atoi(s); return v, err == nil }
-	if len(f) < 5 || f[0] != "info" || f[1] != "depth" {
+	if len(f) < 2 || f[0] != "info" {
 		return in, false
 	}
-	var ok bool
-	if in.Depth, ok = num(f[2]); !ok {
-		return in, false
-	}
-	if f[3] == "nodes" {
-		if len(f) != 5 {
+	seen := map[string]bool{}
+	hasScore, hasPV := false, false
+	for i := 1; i < len(f); {
+		k := f[i]
+		if seen[k] {
 			return in, false
 		}
-		in.Abort = true
-		in.Nodes, ok = num(f[4])
-		return in, ok
-	}
-	if f[3] != "score" || len(f) < 13 || (f[4] != "cp" && f[4] != "mate") {
-		return in, false
-	}
-	if _, ok = num(f[5]); !ok {
-		return in, false
-	}
-	in.Score = f[4] + " " + f[5]
-	if f[6] != "nodes" || f[8] != "time" || f[10] != "hashfull" || f[12] != "pv" {
-		return in, false
-	}
-	if in.Nodes, ok = num(f[7]); !ok {
-		return in, false
-	}
-	if in.Time, ok = num(f[9]); !ok {
-		return in, false
-	}
-	if in.HashFull, ok = num(f[11]); !ok {
-		return in, false
-	}
-	in.PV = f[13:]
-	for _, m := range in.PV {
-		if !moveShape(m) {
+		seen[k] = true
+		switch {
+		case k == "string":
+			in.Text = len(seen) == 1
+			in.kept = append(in.kept, f[i:]...)
+			i = len(f)
+		case intKeys[k]:
+			if i+1 >= len(f) {
+				return in, false
+			}
+			v, err := strconv.Atoi(f[i+1])
+			if err != nil || v < 0 {
+				return in, false
+			}
+			switch k {
+			case "depth":
+				in.Depth = v
+			case "nodes":
+				in.Nodes = v
+			case "time":
+				in.Time = v
+			case "hashfull":
+				in.HashFull = v
+			}
+			if k != "time" && k != "nps" && k != "cpuload" {
+				in.kept = append(in.kept, f[i], f[i+1])
+			}
+			i += 2
+		case k == "score":
+			if i+2 >= len(f) || (f[i+1] != "cp" && f[i+1] != "mate") {
+				return in, false
+			}
+			if _, err := strconv.Atoi(f[i+2]); err != nil {
+				return in, false
+			}
+			in.Score = f[i+1] + " " + f[i+2]
+			hasScore = true
+			in.kept = append(in.kept, f[i:i+3]...)
+			i += 3
+			if i < len(f) && (f[i] == "lowerbound" || f[i] == "upperbound") {
+				in.kept = append(in.kept, f[i])
+				i++
+			}
+		case k == "currmove":
+			if i+1 >= len(f) || !moveShape(f[i+1]) {
+				return in, false
+			}
+			in.kept = append(in.kept, f[i], f[i+1])
+			i += 2
+		case k == "pv" || k == "refutation" || k == "currline":
+			rest := f[i+1:]
+			if k == "currline" && len(rest) > 0 {
+				if _, err := strconv.Atoi(rest[0]); err == nil {
+					rest = rest[1:]
+				}
+			}
+			for _, m := range rest {
+				if !moveShape(m) {
+					return in, false
+				}
+			}
+			if k == "pv" {
+				in.PV = rest
+				hasPV = true
+			}
+			in.kept = append(in.kept, f[i:]...)
+			i = len(f)
+		default:
 			return in, false
 		}
 	}
+	if !in.Text && !seen["depth"] {
+		return in, false // a search report names its iteration
+	}
+	in.Abort = !in.Text && !hasScore && !hasPV
 	return in, true
 }
 
@@ -188,12 +245,10 @@ func moveShape(m string) bool {
 	return len(m) == 4 || strings.ContainsRune("qrbn", rune(m[4]))
 }
 
-// StripTime renders an info line without its time field (wall-clock is not an observable of C08).
+// StripTime renders an info line without the fields that are functions of the wall clock (time,
+// nps, cpuload): wall-clock is not an observable of C08. Everything else is kept, in order.
 func (in Info) StripTime() string {
-	if in.Abort {
-		return in.Raw
-	}
-	return fmt.Sprintf("info depth %d score %s nodes %d hashfull %d pv %s", in.Depth, in.Score, in.Nodes, in.HashFull, strings.Join(in.PV, " "))
+	return "info " + strings.Join(in.kept, " ")
 }
 
 // Issue is one finding of a trace checker.
